@@ -13,7 +13,18 @@ fn flag(args: &[String], name: &str) -> bool { args.iter().any(|a| a == name) }
 /// runs one in-process case under a watchdog: the implementation is called on a worker thread; if it does not come
 /// back within the limit (an endless loop, a dead lock), a line saying so is written and the process gives up - the
 /// cases after it in this shard are not run, the line is the finding
-fn watched<F: FnOnce() -> serde_json::Value + Send + 'static>(limit_s: u64, mode: &str, seed: u64, case: u64, thorough: bool, f: F) -> serde_json::Value {
+fn watched<F: Fn() -> serde_json::Value + Send + Clone + 'static>(limit_s: u64, mode: &str, seed: u64, case: u64, thorough: bool, f: F) -> serde_json::Value {
+    // a case during which this process was not run for seconds (overloaded machine, frozen sandbox) is run again: what
+    // it observed about time limits, hangs and processes still alive says nothing about the code
+    for attempt in 0..3 {
+        let epoch = cvh::util::stall_epoch();
+        let mut v = watched_once(limit_s, mode, seed, case, thorough, f.clone());
+        if cvh::util::stall_epoch() == epoch || attempt == 2 { if attempt > 0 { v["stallRetries"] = json!(attempt); } return v; }
+    }
+    unreachable!()
+}
+
+fn watched_once<F: FnOnce() -> serde_json::Value + Send + 'static>(limit_s: u64, mode: &str, seed: u64, case: u64, thorough: bool, f: F) -> serde_json::Value {
     let (tx, rx) = std::sync::mpsc::channel();
     std::thread::Builder::new().stack_size(64 << 20).spawn(move || { let _ = tx.send(f()); }).unwrap();
     match rx.recv_timeout(Duration::from_secs(limit_s)) {
@@ -167,8 +178,14 @@ fn main() {
                 let mut line = if cmd == "run" {
                     watched(if th { 1800 } else { 600 }, cmd, s, case, th, move || { let mut rng = Rng::new(s.wrapping_mul(1_000_003).wrapping_add(case) ^ 0x4E17); cvh::run::gen_case(&mut rng, th, case) })
                 } else {
-                    let mut rng = Rng::new(s.wrapping_mul(1_000_003).wrapping_add(case) ^ 0x9A0C);
-                    cvh::proc::gen_case(&mut rng, th, case)
+                    let mut v = json!(null);
+                    for attempt in 0..3 {
+                        let epoch = cvh::util::stall_epoch();
+                        let mut rng = Rng::new(s.wrapping_mul(1_000_003).wrapping_add(case) ^ 0x9A0C);
+                        v = cvh::proc::gen_case(&mut rng, th, case);
+                        if cvh::util::stall_epoch() == epoch { if attempt > 0 { v["stallRetries"] = json!(attempt); } break; }
+                    }
+                    v
                 };
                 line["case"] = json!(case); line["gen"] = json!({"seed": s, "case": case, "thorough": th});
                 match trace_out.as_mut() { Some(f) => { writeln!(f, "{}", line).unwrap(); } None => { let mut o = out.lock(); writeln!(o, "{}", line).unwrap(); } }
